@@ -55,7 +55,8 @@ def trace_cfg(devs=True, consts=None):
 class Family:
     def __init__(self, name, mc_module, trace_module, driver, rounds, owns=None, devs=True,
                  invariant="DesignOK", harness_args=None, rule_text="", assumptions=None,
-                 trace_consts=None, needs_gts=False, shards=NCPU, case_key=None, mc_workers=NCPU):
+                 trace_consts=None, needs_gts=False, shards=NCPU, case_key=None, mc_workers=NCPU,
+                 tags=None, dedupe=False, gen_invariant=None, thorough_args=None):
         self.name = name
         self.mc_module = mc_module
         self.trace_module = trace_module
@@ -72,6 +73,10 @@ class Family:
         self.shards = shards
         self.case_key = case_key or (lambda v: v["case"])
         self.mc_workers = mc_workers
+        self.tags = tags
+        self.dedupe = dedupe
+        self.gen_invariant = gen_invariant
+        self.thorough_args = thorough_args or []
 
 
 def replay_cases(work, harness, fam, cases_file, tag, shards=None, extra_args=None):
@@ -114,8 +119,10 @@ def run_family(fam, prop, tier, seed, replay=None, extra_harness_args=None):
     t0 = time.time()
     work = Work(prop)
     try:
-        harness = build_harness(work)
+        harness = build_harness(work, tags=fam.tags)
         extra = list(extra_harness_args or [])
+        if tier == "thorough":
+            extra += fam.thorough_args
         if fam.needs_gts:
             from vcore import build_gts
             extra += ["-gts", build_gts(work)]
@@ -152,10 +159,15 @@ def run_family(fam, prop, tier, seed, replay=None, extra_harness_args=None):
                 mc_states += s
                 mc_trans += t
             cases = work.path("cases-%d.ndjson" % i)
-            rc, out, dt = run_tlc(work, fam.mc_module, mc_cfg(consts, None, devs=fam.devs),
+            rc, out, dt = run_tlc(work, fam.mc_module, mc_cfg(consts, fam.gen_invariant, devs=fam.devs),
                                   env={"CASES": cases}, workers=1, timeout=3400, heap="8g")
             if rc != 0 or tlc_failed(out) or not os.path.exists(cases):
                 raise Undecided("case generation failed:\n" + out[-3000:])
+            if fam.dedupe:
+                with open(cases) as fh:
+                    uniq = sorted(set(fh.readlines()))
+                with open(cases, "w") as fh:
+                    fh.writelines(uniq)
             if not rnd.get("mc", True):
                 s, t = tlc_stats(out)
                 mc_states += s
